@@ -647,6 +647,27 @@ func doCall(getter shwap.Getter, ctx context.Context, c *Case, ref *shx.Ref, req
 		class(0, row.IsEmpty(), func() error { return ref.CheckRow(row, reqs[0].Row) })
 	case "eds":
 		class(0, sq == nil, func() error { return ref.CheckEDS(sq) })
+		// A value a getter handed back belongs to the caller: the squares returned (and judged good) by EARLIER
+		// calls must still equal their blocks after this call -- a response buffer recycled for the next request
+		// (honest or hostile) would overwrite them. The last few are kept and compared byte for byte again.
+		heldMu.Lock()
+		kept := heldEDS[:0]
+		for _, h := range heldEDS {
+			if e := h.ref.CheckEDS(h.sq); e != nil {
+				out.Items = append(out.Items, "bad")
+				out.Why = append(out.Why, "a square returned by an EARLIER GetEDS call (judged good then) no longer equals its block after this call: "+e.Error())
+				continue
+			}
+			kept = append(kept, h)
+		}
+		heldEDS = kept
+		if out.Items[0] == "good" {
+			heldEDS = append(heldEDS, heldSquare{sq, ref})
+			if len(heldEDS) > 6 {
+				heldEDS = heldEDS[1:]
+			}
+		}
+		heldMu.Unlock()
 	case "nd":
 		class(0, len(nd) == 0, func() error { return ref.CheckND(nd, shx.NsOf(reqs[0].Ns)) })
 	case "range":
@@ -654,6 +675,16 @@ func doCall(getter shwap.Getter, ctx context.Context, c *Case, ref *shx.Ref, req
 	}
 	return
 }
+
+type heldSquare struct {
+	sq  *rsmt2d.ExtendedDataSquare
+	ref *shx.Ref
+}
+
+var (
+	heldMu  sync.Mutex
+	heldEDS []heldSquare
+)
 
 func sortedKeys(m map[string][]string) []string {
 	ks := make([]string, 0, len(m))
